@@ -68,9 +68,13 @@ pub fn apply_tla<H: BuildHasher>(args: &HashMap<IStr, TlaArg, H>, val: Val) -> R
 		in_description_frame(
 			|| "during TLA call".to_owned(),
 			|| {
+				// The map is iterated in hash order: go through the arguments by name, so that
+				// which of several bad arguments gets reported does not change from run to run
+				let mut sorted = args.iter().collect::<Vec<_>>();
+				sorted.sort_by(|a, b| (a.0 as &str).cmp(b.0 as &str));
 				let mut names = Vec::with_capacity(args.len());
 				let mut values = Vec::with_capacity(args.len());
-				for (name, value) in args {
+				for (name, value) in sorted {
 					names.push(name.clone());
 					values.push(value.evaluate()?);
 				}
